@@ -190,7 +190,7 @@ func MarkupHostile() [][]byte {
 			out = append(out, x, x[:len(x)-1], append(append([]byte{0xEF, 0xBB, 0xBF}, x...), "<p>"...))
 		}
 	}
-	prologs := []string{"<?xml", "<?xml ", "<?xml version", "<?xml version=", "<?xml version=\"1.0\" encoding", "<?xml version=\"1.0\" encoding=", "<?xml version=\"1.0\" encoding=\"", "<?xml version=\"1.0\" encoding='x", "<?xml version=\"1.0\" encoding=\"x\"", "<?xml version=\"1.0\" encoding=\"x\"?", "<?xml encoding=encoding=encoding=?>", "<?xml ?>", "<?xml?>", "<?xml version='2.0' encoding='x'?>", "<?xml\tversion=\"1.0\"?>"}
+	prologs := []string{"<?xml", "<?xml ", "<?xml version", "<?xml version=", "<?xml version=\"1.0\" encoding", "<?xml version=\"1.0\" encoding=", "<?xml version=\"1.0\" encoding=\"", "<?xml version=\"1.0\" encoding='x", "<?xml version=\"1.0\" encoding=\"x\"", "<?xml version=\"1.0\" encoding=\"x\"?", "<?xml encoding=encoding=encoding=?>", "<?xml ?>", "<?xml?>", "<?xml version='2.0' encoding='x'?>", "<?xml\tversion=\"1.0\"?>", "<?xml version=\"1.0\" encoding=?>", "<?xml version=\"1.0\" encoding= ?>", "<?xml version=\"1.0\" encoding=\t\n?>", "<?xml encoding=?>", "<?xml version=\"1.0\" encoding = ?>", "<?xml version=\"1.0\" encoding=\"?>", "<?xml version=\"1.0\" encoding='?>", "<?xml version=?>", "<?xml version=\"1.0\" standalone=?>", "<?xml version=\"1.0\" encoding=\"\"?>", "<?xml version=\"1.0\" encoding=''?><a/>"}
 	for _, pr := range prologs {
 		out = append(out, []byte(pr), []byte(" \n"+pr), []byte(pr+"<a>"))
 	}
